@@ -9,6 +9,9 @@ import ObiVerif.Model.LcsEgf
 import ObiVerif.Lemmas.LcsEgfTop
 import ObiVerif.Lemmas.LcsEgfSound
 import ObiVerif.Lemmas.LcsSentinel
+import ObiVerif.Lemmas.LcsEgfOpt
+import ObiVerif.Lemmas.LcsLong
+import ObiVerif.Lemmas.LcsBytes
 /-!
 # C09 — LCS and one-difference kernels are exact within their error bound (property theorems)
 
@@ -422,8 +425,8 @@ the WHOLE of `B` with `l` columns, `s` of them matches — the gaps at both ends
 `EgfOpt … s l`: `(s, l)` is realised and no end-gap-free alignment has a higher score or the same score with fewer
 columns. Structural layer `bandEGF`: the banded matrix by rows with `bandCellE`.
 
-FULL STATEMENT (not proved, tied by the naive end-gap-free DP oracle of the harness on the real code and stated
-here for the record):
+FULL STATEMENT (PROVED in the third pass: `fastLCSEGF_exact` in the section "endgapfree = true: exactness" at the end
+of this file; it was only tied by the naive end-gap-free DP oracle of the harness before):
   `∀ a b e, |a| + |b| < 30000 → (e = -1 ∨ l* - s* ≤ e) → EgfOpt samenuc (egfLong a b) (egfShort a b) s* l* →
      bandEGF a b e = some (s*, l*)`
 What IS proved, for all inputs: `fastLCSEGF_verbatim_refines` (the verbatim kernel = `bandEGF`: (score, length) for
@@ -568,5 +571,244 @@ theorem fastLCSScore_caller_decides (a b : Seq) (e : Int) (hlen : a.length + b.l
 
 /-- `_lpath` (fastlcs.go) is the length field of `decodeValues`; `_isout` its flag -/
 theorem lpath_isout_eq_decode (v : UInt64) : lpath v = (decodeValues v).2.1 ∧ isout v = (decodeValues v).2.2 := ⟨rfl, rfl⟩
+
+/-! ## endgapfree = true: EXACTNESS (third pass — the optimality half)
+
+`Lemmas/LcsEgfOpt.lean`: `EIn` = a path of the matrix from a cell of row 0 (free leading overhang) to a cell, horizontal
+moves free in the last row, strictly inside the band; every cell of `bandEGF` is, as a packed word, at least every such
+path (`cellME_lb`, carried over the cells together with the soundness invariant `GoodE`); an end-gap-free alignment
+`(s, l)` with `min(|a|,|b|) ≤ s + e` — in particular one with `l - s ≤ e` — is such a path for the band the code
+builds (`extra = e + 1` after `maxError += delta`). The number of differences of an end-gap-free alignment is `l - s`
+with `l` NOT counting the free overhangs. -/
+
+/-- the shorter sequence is at most as long as any end-gap-free alignment -/
+theorem egf_short_le {a b : Seq} {s l : Nat} (h : EgfAli samenuc (egfLong a b) (egfShort a b) s l) :
+    min a.length b.length ≤ l ∧ s ≤ l := by
+  obtain ⟨_, _, _, _, ha⟩ := h
+  have hb := ha.bounds samenuc
+  rw [← (egf_long_short a b).2.2]
+  exact ⟨hb.2.2.2.2.1, hb.2.2.2.2.2⟩
+
+/-- **`fastLCSEGF_exact_cover`** — sharpest form: with no bound, or an explicit bound `e` with
+`min(|a|, |b|) ≤ s + e` for the end-gap-free optimum `(s, l)`, the kernel returns that optimum. `|a| + |b| < 30000`. -/
+theorem fastLCSEGF_exact_cover (a b : Seq) (e : Int) (s l : Nat) (hlen : a.length + b.length + 1 ≤ 30000)
+    (hopt : EgfOpt samenuc (egfLong a b) (egfShort a b) s l)
+    (h : e = -1 ∨ ((min a.length b.length : Nat) : Int) ≤ (s : Int) + e) : bandEGF a b e = some (s, l) :=
+  bandEGF_exact a b e s l hlen hopt h
+
+/-- **`fastLCSEGF_exact`** (FULL statement of exactness for endgapfree = true) — with no bound (`e = -1`), or whenever
+the number of differences `l - s` of the end-gap-free optimum `(s, l)` (highest number of matches, then fewest columns,
+over all alignments of a factor of the longer sequence with the whole of the shorter one) does not exceed the bound,
+the kernel returns exactly `(s, l)`. All sequences with `|a| + |b| < 30000`, every `e`. -/
+theorem fastLCSEGF_exact (a b : Seq) (e : Int) (s l : Nat) (hlen : a.length + b.length + 1 ≤ 30000)
+    (hopt : EgfOpt samenuc (egfLong a b) (egfShort a b) s l) (h : e = -1 ∨ (l : Int) - (s : Int) ≤ e) :
+    bandEGF a b e = some (s, l) := by
+  have hb := egf_short_le hopt.1
+  exact bandEGF_exact a b e s l hlen hopt (h.imp id (fun h => by omega))
+
+/-- **`fastLCSEGF_unbounded`** — with no bound the kernel always answers, and its answer is the end-gap-free optimum
+(which therefore exists for every pair of sequences) -/
+theorem fastLCSEGF_unbounded (a b : Seq) (hlen : a.length + b.length + 1 ≤ 30000) :
+    ∃ s l, bandEGF a b (-1) = some (s, l) ∧ EgfOpt samenuc (egfLong a b) (egfShort a b) s l :=
+  bandEGF_unbounded a b hlen
+
+/-- **`fastLCSEGF_beyond`** — when the end-gap-free optimum `(S, L)` has more differences than the explicit bound, the
+kernel answers "not found" or a pair that is itself beyond the bound: never a spurious within-bound answer -/
+theorem fastLCSEGF_beyond (a b : Seq) (e : Int) (S L : Nat) (hlen : a.length + b.length + 1 ≤ 30000)
+    (hopt : EgfOpt samenuc (egfLong a b) (egfShort a b) S L) (h : e ≠ -1 ∧ e < (L : Int) - (S : Int)) :
+    bandEGF a b e = none ∨ ∃ s l, bandEGF a b e = some (s, l) ∧ e < (l : Int) - (s : Int) :=
+  bandEGF_beyond a b e S L hlen h.1 hopt h.2
+
+/-- **`fastLCSEGF_decides_bound`** — for an explicit bound `e`: an answer with at most `e` differences IS the
+end-gap-free optimum; and the kernel gives such an answer iff the optimum has at most `e` differences -/
+theorem fastLCSEGF_decides_bound (a b : Seq) (e : Int) (hlen : a.length + b.length + 1 ≤ 30000) (he : e ≠ -1) :
+    (∀ s l, bandEGF a b e = some (s, l) → (l : Int) - (s : Int) ≤ e →
+      EgfOpt samenuc (egfLong a b) (egfShort a b) s l) ∧
+    (∀ S L, EgfOpt samenuc (egfLong a b) (egfShort a b) S L →
+      ((∃ s l, bandEGF a b e = some (s, l) ∧ (l : Int) - (s : Int) ≤ e) ↔ (L : Int) - (S : Int) ≤ e)) := by
+  refine ⟨fun s l h hb => bandEGF_within_is_opt a b e s l hlen he h hb, fun S L hopt => ⟨?_, ?_⟩⟩
+  · rintro ⟨s, l, h, hb⟩
+    have := (bandEGF_within_is_opt a b e s l hlen he h hb).unique samenuc hopt
+    omega
+  · intro h
+    exact ⟨S, L, fastLCSEGF_exact a b e S L hlen hopt (.inr h), h⟩
+
+/-- **`fastLCSEGF_verbatim_exact`** — exactness on the VERBATIM kernel with endgapfree = true, any scratch buffer -/
+theorem fastLCSEGF_verbatim_exact (a b : Seq) (e : Int) (fill : Option UInt64) (s l : Nat)
+    (hlen : a.length + b.length + 1 ≤ 30000) (hopt : EgfOpt samenuc (egfLong a b) (egfShort a b) s l)
+    (h : e = -1 ∨ (l : Int) - (s : Int) ≤ e) :
+    ∃ en : Int, fastLCSEGFScoreByte a b e true fill = .ok ((s : Int), (l : Int), en) ∧ 0 ≤ en ∧
+      en ≤ (max a.length b.length : Nat) := by
+  obtain ⟨en, h1, h2, h3⟩ := fastLCS_egf_refines a b e fill
+  rw [fastLCSEGF_exact a b e s l hlen hopt h] at h1
+  exact ⟨en, h1, h2, h3⟩
+
+/-- the exported wrapper `FastLCSEGFScore` is exact -/
+theorem fastLCSEGFScore_verbatim_exact (a b : Seq) (e : Int) (s l : Nat)
+    (hlen : a.length + b.length + 1 ≤ 30000) (hopt : EgfOpt samenuc (egfLong a b) (egfShort a b) s l)
+    (h : e = -1 ∨ (l : Int) - (s : Int) ≤ e) :
+    ∃ en : Int, fastLCSEGFScore a b e = .ok ((s : Int), (l : Int), en) ∧ 0 ≤ en ∧ en ≤ (max a.length b.length : Nat) :=
+  fastLCSEGF_verbatim_exact a b e none s l hlen hopt h
+
+/-- non-vacuity (tests on sample values): "ccacgtcc" / "acgt": the kernel answer (4, 4) with the bound 0 is, by
+`fastLCSEGF_decides_bound`, the end-gap-free optimum; so the hypotheses of `fastLCSEGF_exact` are satisfiable on a
+narrow band where the plain kernel answers "not found" -/
+example : EgfOpt samenuc (egfLong [99, 99, 97, 99, 103, 116, 99, 99] [97, 99, 103, 116])
+    (egfShort [99, 99, 97, 99, 103, 116, 99, 99] [97, 99, 103, 116]) 4 4 :=
+  (fastLCSEGF_decides_bound _ _ 0 (by decide) (by decide)).1 4 4 (by decide +kernel) (by decide)
+
+/-! ## The true length frontier (third pass)
+
+`Lemmas/LcsLong.lean`. The hypothesis `|a| + |b| < 30000` of the theorems above came from the proof (the soundness
+invariant let an out-of-band cell hold a length up to `30000 + i + j`), not from the code. With the invariant "every
+cell strictly inside the band holds an in-band word realised by an alignment, every border cell the `_setout` of one;
+`_out` is never stored nor incremented" the only limits left are those of the representation:
+`LenOK |a| |b| e` := `|a| + |b| ≤ 65534` (16-bit inverted length field, sharp at 65535 by `cell_order`) and
+(`|a| ≤ 30000 ∧ |b| ≤ 30000` — the first-row / first-column cells must win against `_notavail` = length 30000 — or the
+bound is explicit and `e ≤ 14999`, so that the band `hi = 2(e+1)`, `-lo ≤ 2(e+1)` reaches neither column 30000 of the
+first row nor row 30000 of the first column). Under `LenOK` soundness, exactness and "beyond" hold; beyond it the
+kernel is wrong: `fastLCS_length_bound_needed` (no bound) and `fastLCS_length_bound_needed_explicit` (every bound
+`e ≥ |A|`) for EVERY `A` with `30000 < |A| ≤ 65534` against the empty sequence (finding C09-len30000). NOT decided:
+a sequence longer than 30000 with an explicit bound `15000 ≤ e < |A|`, and `|a| + |b| > 65534`. -/
+
+/-- **`fastLCS_sound_long`** — `fastLCS_sound` under the true length condition -/
+theorem fastLCS_sound_long (a b : Seq) (e : Int) (s l : Nat) (hok : LenOK a.length b.length e)
+    (h : bandLCS a b e = some (s, l)) :
+    Ali samenuc a b s l ∧
+    (s < (lcsDP samenuc a b).1 ∨ (s = (lcsDP samenuc a b).1 ∧ (lcsDP samenuc a b).2 ≤ l)) :=
+  ⟨bandLCS_sound_long a b e s l hok h, (lcsDP_is_lcs samenuc a b).2 s l (bandLCS_sound_long a b e s l hok h)⟩
+
+/-- **`fastLCS_exact_long`** — `fastLCS_exact` (full statement) under the true length condition: both sequences up to
+30000 bases (any bound), or `|a| + |b| ≤ 65534` with an explicit bound up to 14999 -/
+theorem fastLCS_exact_long (a b : Seq) (e : Int) (hok : LenOK a.length b.length e)
+    (h : e = -1 ∨ ((lcsDP samenuc a b).2 : Int) - ((lcsDP samenuc a b).1 : Int) ≤ e) :
+    bandLCS a b e = some (lcsDP samenuc a b) :=
+  bandLCS_exact_long a b e hok h
+
+/-- **`fastLCS_beyond_long`** — `fastLCS_beyond` under the true length condition -/
+theorem fastLCS_beyond_long (a b : Seq) (e : Int) (hok : LenOK a.length b.length e)
+    (h : e ≠ -1 ∧ e < ((lcsDP samenuc a b).2 : Int) - ((lcsDP samenuc a b).1 : Int)) :
+    bandLCS a b e = none ∨ ∃ s l, bandLCS a b e = some (s, l) ∧ e < (l : Int) - (s : Int) :=
+  bandLCS_beyond_long a b e hok h.2
+
+/-- **`fastLCS_verbatim_exact_long`** — on the verbatim kernel, any scratch buffer -/
+theorem fastLCS_verbatim_exact_long (a b : Seq) (e : Int) (fill : Option UInt64) (hok : LenOK a.length b.length e)
+    (h : e = -1 ∨ ((lcsDP samenuc a b).2 : Int) - ((lcsDP samenuc a b).1 : Int) ≤ e) :
+    fastLCSEGFScoreByte a b e false fill =
+      .ok (((lcsDP samenuc a b).1 : Int), ((lcsDP samenuc a b).2 : Int), 0) := by
+  rw [fastLCS_verbatim_refines, fastLCS_exact_long a b e hok h]; rfl
+
+/-- **`fastLCS_verbatim_sound_long`** — on the verbatim kernel: "not found" or the score and length of an actual
+alignment -/
+theorem fastLCS_verbatim_sound_long (a b : Seq) (e : Int) (fill : Option UInt64) (hok : LenOK a.length b.length e) :
+    fastLCSEGFScoreByte a b e false fill = .ok (-1, -1, -1) ∨
+    ∃ s l : Nat, fastLCSEGFScoreByte a b e false fill = .ok ((s : Int), (l : Int), 0) ∧ Ali samenuc a b s l := by
+  rw [fastLCS_verbatim_refines]
+  cases h : bandLCS a b e with
+  | none => left; rfl
+  | some p => right; exact ⟨p.1, p.2, rfl, bandLCS_sound_long a b e p.1 p.2 hok h⟩
+
+/-- the former hypothesis is a special case of `LenOK`; the frontier cases themselves satisfy it (tests on values);
+one base more does not -/
+theorem lenOK_of_sum (a b : Seq) (e : Int) (h : a.length + b.length + 1 ≤ 30000) : LenOK a.length b.length e :=
+  LenOK.of_sum h e
+example : LenOK 30000 30000 (-1) ∧ LenOK 32767 32767 14999 ∧ ¬ LenOK 30001 0 (-1) ∧ ¬ LenOK 30001 30001 15000 ∧
+    ¬ LenOK 32768 32767 0 := by decide
+
+/-- **`fastLCS_length_bound_needed_explicit`** — the frontier is real for explicit bounds too: for every `A` with
+`30000 < |A| ≤ 65534` and every bound `e ≥ |A|`, the kernel answers `(0, 30000, 0)` for `A` against the empty sequence
+although the optimum `(0, |A|)` is within the bound -/
+theorem fastLCS_length_bound_needed_explicit (A : Seq) (e : Int) (fill : Option UInt64) (h1 : 30000 < A.length)
+    (h2 : A.length ≤ 65534) (he : (A.length : Int) ≤ e) :
+    fastLCSEGFScoreByte A [] e false fill = .ok (0, 30000, 0) ∧ lcsDP samenuc A [] = (0, A.length) := by
+  rw [fastLCS_verbatim_refines, bandLCS_long_row0_bound A e h1 h2 he]
+  exact ⟨rfl, (bandLCS_long_row0 A h1 h2).2⟩
+
+/-- the callers' acceptance test (`fastLCSScore_caller_decides`) under the true length condition -/
+theorem fastLCSScore_caller_decides_long (a b : Seq) (e : Int) (hok : LenOK a.length b.length e) :
+    ((∃ s l, bandLCS a b e = some (s, l) ∧ (l : Int) - (s : Int) ≤ e) ↔
+      ((lcsDP samenuc a b).2 : Int) - ((lcsDP samenuc a b).1 : Int) ≤ e) ∧
+    (∀ s l, bandLCS a b e = some (s, l) → (l : Int) - (s : Int) ≤ e → (s, l) = lcsDP samenuc a b) := by
+  refine ⟨⟨?_, ?_⟩, fun s l h hb => bandLCS_within_is_opt_long a b e s l hok h hb⟩
+  · rintro ⟨s, l, h, hb⟩
+    have := bandLCS_within_is_opt_long a b e s l hok h hb
+    rw [← this]; exact hb
+  · intro h
+    exact ⟨_, _, fastLCS_exact_long a b e hok (.inr h), h⟩
+
+/-! ## Symmetry of the kernels, and `_samenuc` on all 256 byte values (third pass) -/
+
+/-- `_samenuc` is symmetric on ALL bytes (not only IUPAC symbols) -/
+theorem samenuc_symm_all_bytes (x y : UInt8) : samenuc x y = samenuc y x := samenuc_comm x y
+
+/-- a byte that is not an ASCII letter ('-', '.', '*', digits, control and high bytes) matches exactly itself -/
+theorem samenuc_non_letter (x y : UInt8) (hx : isLetter x = false) : samenuc x y = (x == y) :=
+  samenuc_nonletter x y hx
+
+/-- a letter that is not an IUPAC code (e f i j l o p q x z, either case — decided on the regenerated table) matches
+nothing, NOT EVEN ITSELF: two identical sequences containing such a letter are not reported as identical by the LCS
+kernel (while `D1Or0`, which compares bytes, answers 0) -/
+theorem samenuc_non_iupac_letter :
+    (∀ x : UInt8, nonIupacLetter x = true ↔
+      x ∈ ([101, 102, 105, 106, 108, 111, 112, 113, 120, 122, 69, 70, 73, 74, 76, 79, 80, 81, 88, 90] : List UInt8)) ∧
+    (∀ x y : UInt8, nonIupacLetter x = true → samenuc x y = false ∧ samenuc y x = false) :=
+  ⟨nonIupacLetter_list, fun x y h => ⟨samenuc_nonIupacLetter x y h, by rw [samenuc_comm]; exact samenuc_nonIupacLetter x y h⟩⟩
+
+example : samenuc 45 45 = true ∧ samenuc 46 45 = false ∧ samenuc 120 120 = false ∧ samenuc 88 120 = false ∧
+    samenuc 78 97 = true ∧ bandLCS [120] [120] (-1) = some (0, 1) ∧ d1F [120] [120] = ⟨0, -1, 0, 0⟩ := by decide
+
+/-- **`fastLCS_symm_unequal`** — sequences of different lengths, BOTH modes, every bound, every byte content, no length
+bound: exchanging the arguments does not change the answer (the kernel puts the longer sequence first) -/
+theorem fastLCS_symm_unequal (a b : Seq) (e : Int) (h : a.length ≠ b.length) :
+    bandLCS a b e = bandLCS b a e ∧ bandEGF a b e = bandEGF b a e := by
+  unfold bandLCS bandEGF
+  by_cases c : a.length < b.length
+  · have c' : ¬ b.length < a.length := by omega
+    simp only [if_pos c, if_neg c']; exact ⟨trivial, trivial⟩
+  · have c' : b.length < a.length := by omega
+    simp only [if_neg c, if_pos c']; exact ⟨trivial, trivial⟩
+
+/-- **`fastLCS_symm_within`** — any lengths within `LenOK`, endgapfree = false: with no bound, or when the optimum is
+within the bound, exchanging the arguments does not change the answer (all byte values: `samenuc_symm_all_bytes`) -/
+theorem fastLCS_symm_within (a b : Seq) (e : Int) (hok : LenOK a.length b.length e)
+    (h : e = -1 ∨ ((lcsDP samenuc a b).2 : Int) - ((lcsDP samenuc a b).1 : Int) ≤ e) :
+    bandLCS a b e = bandLCS b a e := by
+  rw [fastLCS_exact_long a b e hok h, fastLCS_exact_long b a e hok.swap (by rw [lcsDP_samenuc_swap]; exact h),
+    lcsDP_samenuc_swap]
+
+/-! ## The other callers of the kernels (third pass)
+
+`obirefidx`, `obitag`, `obitag2` call `D1Or0(sequence, reference)` and use the verdict only (symmetric by `d1or0_symm`);
+`obiconsensus` calls `D1Or0(s1, s2)` and, on verdict 1, `FastLCSScore(s1, s2, distmax, nil)`; `obigeomtag`,
+`obilandmark`, `obicleandb` call `FastLCSScore(x, y, -1, buffer)` (no bound: exact by `fastLCS_exact_long` for both
+sequences up to 30000 bases) and compute `alilength - lcs` / `lcs / alilength`. All of them pass `BioSequence`s; the
+wrappers take `Sequence()`, the stored lower-case bytes (`fastLCSScore`, `fastLCSEGFScore` are those wrappers). -/
+
+/-- a pair `D1Or0` reports at distance ≤ 1 is accepted by the bounded LCS test with any bound `e ≥ 1`, and the
+LCS kernel then reports at most one difference — for sequences over bytes that match themselves (`hself`: true of
+the IUPAC symbols; false of the letters e f i j l o p q x z, see `samenuc_non_iupac_letter`) the two kernels agree
+on identity: `D1Or0 = 0` implies `FastLCSScore = (|a|, |a|)` -/
+theorem d1_zero_imp_lcs_full (a : Seq) (e : Int) (hok : LenOK a.length a.length e) (he : e = -1 ∨ 0 ≤ e)
+    (hself : ∀ x ∈ a, samenuc x x = true) :
+    (d1F a a).verdict = 0 ∧ bandLCS a a e = some (a.length, a.length) := by
+  refine ⟨(d1or0_spec a a).1.2 rfl, ?_⟩
+  have hdiag : ∀ l : Seq, (∀ x ∈ l, samenuc x x = true) → Ali samenuc l l l.length l.length := by
+    intro l
+    induction l with
+    | nil => intro _; exact .nil
+    | cons x xs ih =>
+      intro h
+      have := Ali.pair (m := samenuc) x x (ih (fun y hy => h y (List.mem_cons_of_mem _ hy)))
+      rw [h x (List.mem_cons_self), if_pos rfl] at this
+      exact this
+  have ha := hdiag a hself
+  have hopt := lcsDP_is_lcs samenuc a a
+  have hb := hopt.1.bounds samenuc
+  have h2 := hopt.2 _ _ ha
+  have e1 : (lcsDP samenuc a a).1 = a.length := by omega
+  have e2 : (lcsDP samenuc a a).2 = a.length := by omega
+  have := fastLCS_exact_long a a e hok (by rcases he with h | h; exact .inl h; exact .inr (by omega))
+  rw [this]
+  exact congrArg some (Prod.ext e1 e2)
 
 end ObiVerif.Props.C09
